@@ -66,6 +66,7 @@ def run(ctx):
                                      "except the drop glue of a spine type with a conforming manual Drop")
     r2 = ctx.rule("R-SPINE-CDR-ARG", "no recursive call passes a cdr-derived argument unless tail-guarded")
     exc = {k: dict(v) for k, v in load_table("spine_exceptions.json").items()}
+    carlike = {}
 
     lex_adts = db.crate("lexpr").adts
     cons_idx = {}
@@ -130,7 +131,8 @@ def run(ctx):
                 if t["k"] != "call":
                     continue
                 if tainted is None:
-                    tainted = spine.cdr_taint(fn)
+                    tainted = spine.cdr_taint(fn, carlike.setdefault(n["crate"], spine.carlike_fns(db.crate(n["crate"]))
+                                              if db.crate(n["crate"]) else set()))
                 bad = [common.place_local(a) for a in t["args"]
                        if common.place_local(a) is not None and common.place_local(a) in tainted]
                 callee = nice(db, m.nodes[e["to"]])
